@@ -176,7 +176,16 @@ pub fn gen(prop: &str, seed: u64, index: u64, tier: Tier) -> Case {
     // C05: the cycle is closed by an edit after a successful build, and the run that must report
     // it is a verify (the stored outputs still match: `after` prints nothing)
     let mut closing: Option<(String, String)> = None;
-    if prop == "C05" && !swept && !cyclic && a.n() >= 2 && crng.chance(1, 3) {
+    if prop == "C05" && !swept && !cyclic && a.n() >= 2 && crng.chance(1, 8) {
+        // no cycle at all: a dependency's text is edited after the build, the verify that follows
+        // must fail for that reason and not with a circular-dependency report
+        let with_dependers: Vec<usize> = a.edges().iter().map(|(_, j)| *j).collect();
+        if !with_dependers.is_empty() {
+            let j = *crng.pick(&with_dependers);
+            closing = Some((a.sources[j].path.clone(), "edited after the build".to_string()));
+        }
+    }
+    if closing.is_none() && prop == "C05" && !swept && !cyclic && a.n() >= 2 && crng.chance(1, 3) {
         // an edge j -> i where i already reaches j closes a cycle; a self-loop otherwise
         let edges_now = a.edges();
         let mut cands: Vec<(usize, usize)> = edges_now.iter().map(|(i, j)| (*j, *i)).collect();
